@@ -120,6 +120,35 @@ class Policy:
             if pw and self.rnd.random() < 0.45:
                 return self.rnd.choice(pw)
             return self.rnd.randrange(n)
+        if k == "disrupt":
+            # interfere with whatever the scripted agents are doing: act on the nodes / software / accounts their recent actions named
+            # (power-cycle the node, stop the service, change the password, block it) so that their actions FAIL in mid-chain
+            amap = env.agent.action_manager.action_map
+            names = set()
+            for ag in env.game.agents.values():
+                if ag is env.agent:
+                    continue
+                for h in ag.history[-3:]:
+                    for key in ("node_name", "source_node", "target_router", "target_firewall_nodename"):
+                        v = h.parameters.get(key) if isinstance(h.parameters, dict) else None
+                        if v:
+                            names.add(v)
+                sn = getattr(ag, "starting_node", None)
+                if isinstance(sn, str):
+                    names.add(sn)
+            mine = [i for i, (a, o) in amap.items() if isinstance(o, dict) and (o.get("node_name") in names or o.get("target_router") in names)]
+            down = [i for i in mine if amap[i][0] in ("node-shutdown", "node-reset", "host-nic-disable", "node-account-change-password", "node-service-stop",
+                                                      "node-application-remove", "node-application-close", "router-acl-add-rule", "node-service-disable")]
+            up = [i for i in mine if amap[i][0] in ("node-startup", "host-nic-enable", "node-service-start", "node-service-enable", "router-acl-remove-rule")]
+            r = self.rnd.random()
+            hard = [i for i in down if amap[i][0] in ("node-shutdown", "node-reset", "host-nic-disable")]
+            if hard and t < 40 and r < 0.2:  # early: knock out the node itself while the first stages of the chain run
+                return self.rnd.choice(hard)
+            if down and r < 0.3:
+                return self.rnd.choice(down)
+            if up and r < 0.5:
+                return self.rnd.choice(up)
+            return 0 if r < 0.92 else self.rnd.randrange(n)
         if k == "quiet":
             return 0 if self.rnd.random() < 0.7 else self.rnd.randrange(n)
         return self.rnd.randrange(n)
